@@ -3,6 +3,8 @@
 package strategy
 
 import (
+	"github.com/go-logr/logr"
+	podutils "github.com/DataDog/extendeddaemonset/pkg/controller/utils/pod"
 	"strconv"
 	"time"
 
@@ -109,4 +111,99 @@ func ZZ_C14_counters() {
 	nondet.Reach("C14.counters.quiescent-layout", allGood && role == "active")
 	nondet.Reach("C14.counters.mixed", role == "canary" && upToDate >= 1 && upToDate < n)
 	_ = corev1.PodRunning
+}
+
+// ZZ_C14_overrideComesAndGoes: "current, ready, available ... equal the numbers of daemon pods that ...
+// run the live template" when what a node's pod has to look like changes under it: the pod of node0 was
+// created (by the real pod builder) while the node carried a resources override annotation or not; by
+// the time of the sync the annotation is unchanged, has been removed, has got another value, or has
+// appeared.  In every role the pod counts in current / ready / available exactly when it still is what
+// would be created now, and the active replica set replaces it when it is not.
+func ZZ_C14_overrideComesAndGoes() {
+	ds := zzDaemonset(map[string]string{})
+	rs := zzReplicaSet()
+	rs.Spec.Template = corev1.PodTemplateSpec{
+		ObjectMeta: metav1.ObjectMeta{Labels: map[string]string{"app": "agent"}},
+		Spec:       corev1.PodSpec{Containers: []corev1.Container{{Name: "agent", Image: "agent:1"}}},
+	}
+	key := "resources.extendeddaemonset.datadoghq.com/" + zzNS + "." + zzEDSName + ".agent"
+	node := &corev1.Node{ObjectMeta: metav1.ObjectMeta{Name: zzNodeName(0), Annotations: map[string]string{"unrelated": "x"}}}
+	before := nondet.String("override.atCreation", "none", "r1")
+	if before == "r1" {
+		node.Annotations[key] = `{"requests":{"cpu":"200m"}}`
+	}
+	pod, err := podutils.CreatePodFromDaemonSetReplicaSet(fakeapi.NewScheme(), rs, node, nil, false)
+	nondet.Assert("C14.override.pod-built", err == nil && pod != nil)
+	if pod == nil {
+		return
+	}
+	pod = pod.DeepCopy()
+	pod.Name = "pod0"
+	pod.Spec.NodeName = zzNodeName(0)
+	pod.CreationTimestamp = metav1.NewTime(nondet.Base().Add(-time.Hour))
+	pod.Status = corev1.PodStatus{Phase: corev1.PodRunning, Conditions: []corev1.PodCondition{{Type: corev1.PodReady, Status: corev1.ConditionTrue, LastTransitionTime: metav1.NewTime(nondet.Base().Add(-time.Hour))}}}
+	now := nondet.String("override.now", "none", "r1", "r2")
+	delete(node.Annotations, key)
+	switch now {
+	case "r1":
+		node.Annotations[key] = `{"requests":{"cpu":"200m"}}`
+	case "r2":
+		node.Annotations[key] = `{"requests":{"cpu":"300m"}}`
+	}
+	if nondet.Bool("nodeLeftWithoutAnyAnnotation") && now == "none" {
+		node.Annotations = nil
+	}
+	same := before == now
+	ni := NewNodeItem(node, nil)
+	params := &Parameters{
+		EDSName: zzEDSName, Strategy: &ds.Spec.Strategy, Replicaset: rs, ReplicaSetStatus: string(ReplicaSetStatusActive),
+		NewStatus:     rs.Status.DeepCopy(),
+		NodeByName:    map[string]*NodeItem{ni.Node.Name: ni},
+		PodByNodeName: map[*NodeItem]*corev1.Pod{ni: pod},
+		Logger:        logr.Logger{},
+	}
+	role := nondet.String("role", "active", "canary", "unknown")
+	var st *datadoghqv1alpha1.ExtendedDaemonSetReplicaSetStatus
+	replaced := false
+	switch role {
+	case "active":
+		res, err := ManageDeployment(fakeapi.New(), ds, params, metav1.Now())
+		nondet.Assert("C14.override.noerror", err == nil)
+		if err != nil {
+			return
+		}
+		st = res.NewStatus
+		replaced = len(res.PodsToDelete) == 1
+		// "the active replica set replaces it when it is not"
+		nondet.Assert("C14.override.outdated-pod-replaced", replaced == !same)
+	case "canary":
+		ds.Spec.Strategy.Canary = &datadoghqv1alpha1.ExtendedDaemonSetSpecStrategyCanary{}
+		datadoghqv1alpha1.DefaultExtendedDaemonSetSpec(&ds.Spec, datadoghqv1alpha1.ExtendedDaemonSetSpecStrategyCanaryValidationModeAuto)
+		params.ReplicaSetStatus = string(ReplicaSetStatusCanary)
+		params.CanaryNodes = []string{zzNodeName(0)}
+		res, err := ManageCanaryDeployment(fakeapi.New(), ds, params)
+		nondet.Assert("C14.override.noerror", err == nil)
+		if err != nil {
+			return
+		}
+		st = res.NewStatus
+	default:
+		params.ReplicaSetStatus = string(ReplicaSetStatusUnknown)
+		res, err := ManageUnknown(fakeapi.New(), params)
+		nondet.Assert("C14.override.noerror", err == nil)
+		if err != nil {
+			return
+		}
+		st = res.NewStatus
+	}
+	want := int32(0)
+	if same {
+		want = 1
+	}
+	nondet.Assert("C14.override.current", st.Current == want)
+	nondet.Assert("C14.override.ready", st.Ready == want)
+	nondet.Assert("C14.override.available", st.Available == want)
+	nondet.Observe("current", st.Current)
+	nondet.Reach("C14.override.removed", before == "r1" && now == "none" && st.Current == 0)
+	nondet.Reach("C14.override.kept", before == "r1" && now == "r1" && st.Current == 1)
 }
